@@ -32,6 +32,11 @@ def order_scenarios(rng, n):
                 op['n'] = rng.randint(4, 24)
             if op.get('iterable_len') is not None:
                 op['iterable_len'] = min(op['iterable_len'], op['n'])
+        if rng.random() < .3:
+            # apply submissions before / between the calls advance the same counter: the numbering of a call still starts at 0
+            k = rng.randint(1, 5)
+            sc['ops'].insert(rng.randrange(len(sc['ops']) + 1) if not via_setter else rng.randint(1, len(sc['ops'])),
+                             {'op': 'apply_batch', 'tasks': [{'idx': i} for i in range(k)], 'dur': {'kind': 'map', 'map': {}, 'default': 0.01}, 'get_timeout': 30})
         scs.append(sc)
     return scs
 
